@@ -1,8 +1,395 @@
 import GraafVerif.Driver.Common
-/-! Driver handlers for property C13 (ops the harness module `ops/c13.rs` emits). -/
-namespace GraafVerif.Driver.H13
-open GraafVerif GraafVerif.Driver
+import GraafVerif.Model.ChkTraversal
+import GraafVerif.Model.ChkMatrix
+import GraafVerif.Model.ChkOutcome
+import GraafVerif.Model.ChkRepr
+/-!
+Driver handlers for property C13 (ops of `harness/src/ops/c13.rs`).
 
-def handlers : List (String × Handler) := []
+Every case line is `chk_… args => <oc> <observed>`; the model (`model`) gives the expected
+outcome class {ret, panic} of the program and, for the functions that have a `Chk` model
+(traversals and their derived entry points, `AdjacencyMatrix` index arithmetic), the complete
+expected output.  A crash of the real code never reaches this file: the orchestrator reports
+it as `fault` (PROPFAIL) with the program as replay.
+
+PROPFAIL here: a non-zero live-byte delta of `chk_leak` (the heap grew), and a traversal that
+returned although a vertex id was not in the digraph (the documented panic is missing).
+-/
+namespace GraafVerif.Driver.H13
+open GraafVerif GraafVerif.Driver GraafVerif.Chk
+
+/-- expected behaviour of one program -/
+structure M where
+  cls : Cls
+  /-- on the observed values after `<oc>` when the class agrees -/
+  check : List V → Bool := fun _ => true
+  shown : String := ""
+  /-- the panic is the documented answer to a vertex id that is not in the digraph -/
+  strict : Bool := false
+  tags : List String := []
+  nt : Bool := true
+
+def toDG (g : GDesc) : DG :=
+  let verts := if g.repr == "am" then DG.sortDedup (g.verts ++ g.arcs.map (·.1) ++ g.arcs.map (·.2))
+               else List.range g.order
+  ⟨g.repr, verts, g.arcs, g.warcs⟩
+
+def toCGraph (d : DG) : CGraph := ⟨d.order, fun u => if d.isV u then some (d.succs u) else none⟩
+def toWCGraph (d : DG) : WCGraph := ⟨d.order, fun u => if d.isV u then some (d.wsuccs u) else none⟩
+
+def argTag (d : DG) (x : Nat) : String :=
+  if d.isV x then (if x ≥ d.order then "arg-key>=order" else "arg-vertex")
+  else if x == d.order then "arg-order" else if x == d.order + 1 then "arg-order+1"
+  else if x ≥ 2 ^ 40 then "arg-far" else "arg-nonvertex"
+
+def dgTags (d : DG) : List String :=
+  [ "repr-" ++ d.repr,
+    if d.repr == "am" && d.verts != List.range d.order then "noncontiguous" else "contiguous",
+    sizeTag d.order ]
+
+def clsName : Cls → String
+  | .ret => "ret"
+  | .panic => "panic"
+
+def ofCls (c : Cls) (tags : List String) (nt : Bool := true) (check : List V → Bool := fun _ => true) : M :=
+  { cls := c, check := check, shown := clsName c, tags := tags, nt := nt }
+
+/-- first digest number = the order of the resulting digraph -/
+def orderIs (n : Nat) : List V → Bool
+  | .a "ret" :: .i k :: _ => k == (n : Int)
+  | [.a "panic"] => true
+  | _ => false
+
+def natArgs (vs : List V) : Option (List Nat) := vs.mapM V.nat?
+
+/-! ### traversals -/
+
+def statusV : Option Fault → V
+  | none => .a "ok"
+  | some .panic => .a "panic"
+  | some (.ub s) => .a ("ub:" ++ s)
+
+def drainRound {σ ι : Type} (next : σ → Chk (Option ι × σ)) : Nat → σ → List ι → (List ι × σ × Option Fault)
+  | 0, st, acc => (acc.reverse, st, none)
+  | f + 1, st, acc =>
+    match next st with
+    | .error e => (acc.reverse, st, some e)
+    | .ok (none, st') => (acc.reverse, st', none)
+    | .ok (some it, st') => drainRound next f st' (it :: acc)
+
+def drainRounds {σ ι : Type} (next : σ → Chk (Option ι × σ)) (fuel : Nat) :
+    Nat → σ → List (List ι) → (List (List ι) × Option Fault)
+  | 0, _, acc => (acc.reverse, none)
+  | r + 1, st, acc =>
+    let (items, st', e) := drainRound next fuel st []
+    match e with
+    | some e => ((items :: acc).reverse, some e)
+    | none => drainRounds next fuel r st' (items :: acc)
+
+def FUEL : Nat := 1000000
+
+def itModel {σ ι : Type} (new : Chk σ) (next : σ → Chk (Option ι × σ)) (rounds : Nat) (shw : ι → V) : List V :=
+  match new with
+  | .error e => [.l [.l []], statusV (some e)]
+  | .ok st =>
+    let (rs, e) := drainRounds next FUEL rounds st []
+    [.l (rs.map (fun r => .l (r.map shw))), statusV e]
+
+def showPair (p : Nat × Nat) : V := .l [V.ofNat p.1, V.ofNat p.2]
+def showStep (p : Option Nat × Nat) : V := .l [V.ofOptNat p.1, V.ofNat p.2]
+
+def itOut (kind : String) (d : DG) (src : List Nat) (rounds : Nat) : Option (List V) :=
+  let g := toCGraph d
+  let wg := toWCGraph d
+  let n := d.order
+  match kind with
+  | "bfs" => some (itModel (bfsNew n src) (bfsNext g) rounds V.ofNat)
+  | "bfs_dist" => some (itModel (bfsDistNew n src) (bfsDistNext g) rounds showPair)
+  | "bfs_pred" => some (itModel (bfsPredNew n src) (bfsPredNext g) rounds showStep)
+  | "dfs" => some (itModel (pure (dfsNew n src)) (dfsNext g) rounds V.ofNat)
+  | "dfs_dist" => some (itModel (pure (dfsDistNew n src)) (dfsDistNext g) rounds showPair)
+  | "dfs_pred" => some (itModel (pure (dfsPredNew n src)) (dfsPredNext g) rounds showStep)
+  | "dijkstra" =>
+    if d.repr == "wu" then some (itModel (dijkstraNew n src) (dijkstraNext wg) rounds (fun it => V.ofNat it.2)) else none
+  | "dijkstra_dist" =>
+    if d.repr == "wu" then
+      some (itModel (dijkstraDistNew n src) (dijkstraDistNext wg) rounds (fun it => showPair (it.2, it.1))) else none
+  | "dijkstra_pred" =>
+    if d.repr == "wu" then some (itModel (dijkstraPredNew n src) (dijkstraPredStep wg) rounds showStep) else none
+  | _ => none
+
+def showDist (l : List Nat) : V := .l (l.map (fun x => if x == INF then .a "inf" else V.ofNat x))
+def showTree (l : List (Option Nat)) : V := .l (l.map V.ofOptNat)
+def showPath : Option (List Nat) → V
+  | none => .a "none"
+  | some p => V.ofNats p
+
+/-- a derived entry point: `ret value` / `panic` -/
+def chkOut {α : Type} (x : Chk α) (shw : α → V) : List V :=
+  match x with
+  | .ok v => [.a "ret", shw v]
+  | .error .panic => [.a "panic"]
+  | .error (.ub s) => [.a ("ub:" ++ s)]
+
+def algOut (name : String) (d : DG) (src tg : List Nat) : Option (List V) :=
+  let g := toCGraph d
+  let wg := toWCGraph d
+  let n := d.order
+  let isT (v : Nat) : Bool := tg.contains v
+  match name with
+  | "bfs_dist_distances" => some (chkOut (bfsDistNew n src >>= bfsDistDistances g FUEL) showDist)
+  | "bfs_pred_predecessors" => some (chkOut (bfsPredNew n src >>= bfsPredPredecessors g FUEL) showTree)
+  | "bfs_pred_shortest_path" => some (chkOut (bfsPredNew n src >>= bfsPredShortestPath g isT FUEL) showPath)
+  | "bfs_pred_cycles" => some (chkOut (bfsPredNew n src >>= bfsPredCycles g FUEL) (fun cs => .l (cs.map V.ofNats)))
+  | "dfs_pred_predecessors" => some (chkOut (dfsPredPredecessors g FUEL (dfsPredNew n src)) showTree)
+  | "dijkstra_dist_distances" =>
+    if d.repr == "wu" then some (chkOut (dijkstraDistNew n src >>= dijkstraDistDistances wg FUEL) showDist) else none
+  | "dijkstra_pred_predecessors" =>
+    if d.repr == "wu" then some (chkOut (dijkstraPredNew n src >>= dijkstraPredPredecessors wg FUEL) showTree) else none
+  | "dijkstra_pred_shortest_path" =>
+    if d.repr == "wu" then some (chkOut (dijkstraPredNew n src >>= dijkstraPredShortestPath wg isT FUEL) showPath) else none
+  | _ => none
+
+def exactM (out : List V) (tags : List String) (nt : Bool) : M :=
+  let cls : Cls := match out with
+    | [.a "panic"] => .panic
+    | [_, .a "panic"] => .panic
+    | _ => .ret
+  { cls := cls, check := fun obs => obs == out, shown := " ".intercalate (out.map toString),
+    strict := cls == .panic, tags := tags, nt := nt }
+
+/-! ### matrix index arithmetic -/
+
+def mxRun (order : Nat) (steps : List (String × Nat × Nat)) : List V :=
+  match mxEmpty order with
+  | .error .panic => [.a "panic"]
+  | .error (.ub s) => [.a ("ub:" ++ s)]
+  | .ok m0 =>
+    let (m, rs) := steps.foldl (fun (acc : Mx × List V) s =>
+      let (m, rs) := acc
+      let (op, x, y) := s
+      let upd (r : Chk Mx) : Mx × List V :=
+        match r with
+        | .ok m' => (m', .a "r" :: rs)
+        | .error .panic => (m, .a "p" :: rs)
+        | .error (.ub s) => (m, .a ("ub:" ++ s) :: rs)
+      if op == "add" then upd (mxAddArc m x y)
+      else if op == "tog" then upd (mxToggle m x y)
+      else if op == "rem" then
+        match mxRemoveArc m x y with
+        | .ok (b, m') => (m', V.ofBool b :: rs)
+        | .error _ => (m, .a "p" :: rs)
+      else
+        match mxHasArc m x y with
+        | .ok b => (m, V.ofBool b :: rs)
+        | .error _ => (m, .a "p" :: rs)) (m0, [])
+    let arcs := match mxArcs m with
+      | .ok as => V.ofPairs as
+      | .error _ => .a "arcs-failed"
+    [.a "ret", .l rs.reverse, arcs, V.ofNat (mxSize m)]
+
+/-! ### the model of every op -/
+
+def binaryNames : List String := ["union", "is_subdigraph", "is_superdigraph", "is_spanning_subdigraph"]
+
+/-- `p ∈ [0, 1]` from the IEEE-754 bits. -/
+def pOk (bits : Nat) : Bool := bits ≤ 0x3FF0000000000000 || bits == 0x8000000000000000
+
+def stepOf (v : V) : Option (String × Nat × Option Nat) :=
+  match v with
+  | .l [.a op, x] => do pure (op, ← V.nat? x, none)
+  | .l [.a op, x, y] => do pure (op, ← V.nat? x, some (← V.nat? y))
+  | _ => none
+
+def model (oc : Bool) (t : Nat) : String → List V → Option M
+  | "chk_gen", .a repr :: .a name :: rest => do
+    let a ← natArgs rest
+    let pok := match name, a with | "er", [_, b, _] => pOk b | _, _ => true
+    let known := ["al", "am", "mx", "el"].contains repr ||
+                 ((repr == "wu" || repr == "wi") && (name == "empty" || name == "trivial"))
+    if !known then none
+    let (c, n) ← genOutcome repr name a pok
+    pure (ofCls c ["gen-" ++ name, "repr-" ++ repr] (nt := a.all (· != 1)) (check := orderIs n))
+  | "chk_rows", [.a repr, rows] =>
+    if repr == "al" || repr == "am" then do
+      let rs ← V.listOf? (V.listOf? V.nat?) rows
+      pure (ofCls (Cls.ofBool (rowsPanics rs)) ["rows", "repr-" ++ repr] (check := orderIs rs.length))
+    else if repr == "wu" || repr == "wi" then do
+      let rs ← V.listOf? (V.listOf? (V.pair? V.nat? V.int?)) rows
+      pure (ofCls (Cls.ofBool (rowsPanics (rs.map (·.map (·.1))))) ["rows", "repr-" ++ repr] (check := orderIs rs.length))
+    else if repr == "mx" then do
+      let ps ← V.listOf? (V.pair? V.nat? V.nat?) rows
+      pure (ofCls (Cls.ofBool (mxPairsPanics ps)) ["rows", "repr-mx"])
+    else if repr == "el" then do
+      let ps ← V.listOf? (V.pair? V.nat? V.nat?) rows
+      pure (ofCls (Cls.ofBool (elPairsPanics oc ps)) ["rows", "repr-el"])
+    else none
+  | "chk_from", [src, .a dst] => do
+    let d := toDG (← GDesc.parse src)
+    if !d.unweighted || dst == d.repr || !["al", "am", "mx", "el", "wu", "wi"].contains dst then none
+    pure (ofCls (Cls.ofBool (fromPanics d dst)) (["from", "to-" ++ dst] ++ dgTags d) (check := orderIs d.order))
+  | "chk_q", .a name :: desc :: rest => do
+    let d := toDG (← GDesc.parse desc)
+    let tags := ["q-" ++ name] ++ dgTags d
+    if binaryNames.contains name then
+      match rest with
+      | [other] => do
+        let o := toDG (← GDesc.parse other)
+        if !d.unweighted then none
+        if name == "union" && d.repr == "am" then
+          -- the `ptr::read`s of this very instance (keys of both maps, observed thread count) are linear
+          let linear := amUnionReads d.verts o.verts t == .ok (List.range d.order, List.range o.order)
+          pure { ofCls .ret (tags ++ ["union-linearity-checked"]) with
+                 check := fun _ => linear, shown := "ret, but the model's ptr::read indices are not each-exactly-once" }
+        else pure (ofCls .ret tags)
+      | _ => none
+    else if name == "filter_vertices" then
+      match rest with
+      | [keep] => do
+        let k ← V.listOf? V.nat? keep
+        if d.repr == "am" then
+          pure (ofCls .ret tags (check := orderIs (d.verts.filter (fun v => k.contains v)).length))
+        else none
+      | _ => none
+    else if name == "has_walk" then
+      match rest with
+      | [w] => do
+        let w ← V.listOf? V.nat? w
+        pure (ofCls .ret (tags ++ w.map (argTag d)) (nt := w.length ≥ 2))
+      | _ => none
+    else do
+      let a ← natArgs rest
+      let p ← qPanics oc d name a
+      pure (ofCls (Cls.ofBool p) (tags ++ a.map (argTag d)) (nt := d.order ≥ 2 || a.any (fun x => !d.isV x)))
+  | "chk_chain", [start, .l prods, .a consumer] => do
+    let tags := ["chain", "consumer-" ++ consumer, s!"producers{prods.length}"]
+    match start with
+    | .l (.a "gen" :: .a repr :: _) => pure (ofCls .ret (tags ++ ["start-gen", "repr-" ++ repr]))
+    | _ => do
+      let d := toDG (← GDesc.parse start)
+      if !d.unweighted || d.order == 0 then none
+      pure (ofCls .ret (tags ++ dgTags d))
+  | "chk_hist", [desc, .l steps] => do
+    let d := toDG (← GDesc.parse desc)
+    if !d.unweighted then none
+    let ss ← steps.mapM stepOf
+    let (verts, rs) ← ss.foldlM (fun (acc : List Nat × List V) s => do
+      let (p, vs') ← histStep d acc.1 s.1 s.2.1 s.2.2
+      pure (vs', acc.2 ++ [.a (if p then "p" else "r")])) (d.verts, [])
+    let want : V := .l rs
+    pure { cls := .ret, shown := s!"ret {want} {verts.length}", tags := ["hist"] ++ dgTags d,
+           check := fun obs => match obs with
+             | .a "ret" :: got :: .i k :: _ => got == want && k == (verts.length : Int)
+             | _ => false }
+  | "chk_mx", [n, .l steps] => do
+    let n ← V.nat? n
+    let ss ← steps.mapM (fun s => do
+      let (op, x, y) ← stepOf s
+      pure (op, x, ← y))
+    let out := mxRun n ss
+    pure { exactM out ["mx", sizeTag n] (n ≥ 2) with strict := false }
+  | "chk_it", [.a kind, desc, src, rounds] => do
+    let d := toDG (← GDesc.parse desc)
+    let src ← V.listOf? V.nat? src
+    let r ← V.nat? rounds
+    let out ← itOut kind d src (max 1 (min r 4))
+    pure (exactM out (["it-" ++ kind] ++ dgTags d ++ (src.map (argTag d)).eraseDups ++ [s!"rounds{r}"])
+      (d.order ≥ 2 || src.any (fun x => !d.isV x)))
+  | "chk_alg", .a name :: desc :: rest => do
+    let d := toDG (← GDesc.parse desc)
+    let tags := ["alg-" ++ name] ++ dgTags d
+    match name, rest with
+    | "bfm_new", [s] => do
+      let s ← V.nat? s
+      if d.repr == "am" then none
+      pure { ofCls (Cls.ofBool (s ≥ d.order)) (tags ++ [argTag d s]) with strict := true }
+    | "bfm", [s] => do
+      let s ← V.nat? s
+      if d.repr != "wi" then none
+      pure { ofCls (Cls.ofBool (s ≥ d.order)) (tags ++ [argTag d s]) with strict := true }
+    | "fw_new", [] => pure (ofCls (Cls.ofBool (d.order == 0)) tags)
+    | "fw", [] => if d.repr == "wi" then pure (ofCls .ret tags) else none
+    | _, src :: more => do
+      let src ← V.listOf? V.nat? src
+      let tg ← match more with
+        | [] => pure []
+        | [t] => V.listOf? V.nat? t
+        | _ => none
+      let out ← algOut name d src tg
+      pure (exactM out (tags ++ (src.map (argTag d)).eraseDups) (d.order ≥ 2 || src.any (fun x => !d.isV x)))
+    | _, _ => none
+  | "chk_dm", .a name :: rest =>
+    match name, rest with
+    | "new", [n] => do
+      let n ← V.nat? n
+      pure (ofCls (Cls.ofBool (dmNewPanics n)) ["dm-new"] (check := orderIs n))
+    | _, .l dist :: _ :: order :: ix => do
+      let order ← V.nat? order
+      let ix ← natArgs ix
+      let p ← dmPanics name dist.length order ix
+      pure (ofCls (Cls.ofBool p) ["dm-" ++ name])
+    | _, _ => none
+  | "chk_pt", .a name :: rest =>
+    match name, rest with
+    | "new", [n] => do
+      let n ← V.nat? n
+      pure (ofCls (Cls.ofBool (n == 0)) ["pt-new"] (check := orderIs n))
+    | "index", [.l pred, i] => do
+      let i ← V.nat? i
+      pure (ofCls (Cls.ofBool (i ≥ pred.length)) ["pt-index"])
+    | "index_mut", [.l pred, i] => do
+      let i ← V.nat? i
+      pure (ofCls (Cls.ofBool (i ≥ pred.length)) ["pt-index"])
+    | _, _ => none
+  | "chk_prng", [_, _] => some (ofCls .ret ["prng"])
+  | _, _ => none
+
+def observedCls : List V → Option Cls
+  | .a "ret" :: _ => some .ret
+  | [.a "panic"] => some .panic
+  | [.l _, .a "ok"] => some .ret
+  | [.l _, .a "panic"] => some .panic
+  | _ => none
+
+def judge (m : M) (obs : List V) (extraTags : List String := []) : Verdict :=
+  let tags := m.tags ++ extraTags
+  match observedCls obs with
+  | none => { status := "MISMATCH", nontrivial := m.nt, tags := tags, detail := m.shown }
+  | some c =>
+    let tags := tags ++ ["class-" ++ clsName c]
+    if c != m.cls then
+      if m.strict && m.cls == .panic then
+        { status := "PROPFAIL", nontrivial := m.nt, tags := tags,
+          detail := "returned although a vertex id is not in the digraph: the documented panic is missing; model: " ++ m.shown }
+      else { status := "MISMATCH", nontrivial := m.nt, tags := tags, detail := m.shown }
+    else if m.check obs then { status := "OK", nontrivial := m.nt, tags := tags }
+    else { status := "MISMATCH", nontrivial := m.nt, tags := tags, detail := m.shown }
+
+def splitOc : List V → Option (Bool × List V)
+  | .a "oc1" :: r => some (true, r)
+  | .a "oc0" :: r => some (false, r)
+  | _ => none
+
+def handle (op : String) : Handler := fun t args obs => do
+  let (oc, rest) ← splitOc obs
+  let m ← model oc t op args
+  pure (judge m rest [if oc then "overflow-checks" else "no-overflow-checks"])
+
+/-- `chk_leak k [op arg*] => <oc> <class> <live-byte delta>` -/
+def hLeak : Handler := fun t args obs =>
+  match args, splitOc obs with
+  | [_, .l (.a op :: pargs)], some (oc, [.a cls, .i delta]) => do
+    let m ← model oc t op pargs
+    let tags := ["leak"] ++ m.tags.take 2
+    if delta != 0 then
+      pure { status := "PROPFAIL", nontrivial := true, tags := tags ++ ["leaked"],
+             detail := s!"the heap grew by {delta} bytes over the repetitions of the program" }
+    else if cls == clsName m.cls then pure { status := "OK", nontrivial := m.nt, tags := tags ++ ["class-" ++ cls] }
+    else pure { status := "MISMATCH", nontrivial := m.nt, tags := tags, detail := clsName m.cls ++ " 0" }
+  | _, _ => none
+
+def handlers : List (String × Handler) :=
+  (["chk_gen", "chk_rows", "chk_from", "chk_q", "chk_chain", "chk_hist", "chk_mx", "chk_it", "chk_alg", "chk_dm", "chk_pt",
+    "chk_prng"].map (fun op => (op, handle op))) ++ [("chk_leak", hLeak)]
 
 end GraafVerif.Driver.H13
